@@ -71,6 +71,7 @@ func c02Grown(t, C, L, G int) dyn.Buf {
 		l0 = 0
 	}
 	root := dyn.Alloc(t, al(C, l0, l0))
+	_ = root.Slice(0, l0) // a window taken before the growth (and dropped)
 	src := dyn.Alloc(t, al(C, L-l0, L-l0))
 	root.Append(src)
 	return root
